@@ -852,21 +852,23 @@ def run(ctx):
     if corr_fail:
         big = True          # correspondence broken: search at the thorough budget
 
-    # genuine departure of the unchanged code (reported to the lead): a SOLUTION_SPREAD whose FIRST column heading is pressure / press
+    # genuine departure of the unchanged code (reported to the lead): the block-level option word `press` (an equivalent spelling of
+    # `pressure`) written without the dash after the heading row of a SOLUTION_SPREAD is ignored
     obs0 = G.observables(["Na", "Cl"])
-    pb0 = G.punch_block(obs0)
-    fa = pb0 + "SOLUTION_SPREAD\n Number\tpressure\tNa\tCl\n 1\t2.0\t1.0\t1.0\nEND\n"
-    fb = pb0 + "SOLUTION_SPREAD\n pressure\tNumber\tNa\tCl\n 2.0\t1\t1.0\t1.0\nEND\n"
-    fpair = dict(kind="speciation", fam="spread_column_order", k=1.0, a=fa, b=fb, last_only=False, last_k=None, obs=[(t, h) for t, h, _ in obs0])
+    pb0 = G.punch_block(obs0 + [("i", "pressure", "PRESSURE")])
+    fa = pb0 + "SOLUTION_SPREAD\n Number\tNa\tCl\n pressure 5\n 1\t1.0\t1.0\nEND\n"
+    fb = pb0 + "SOLUTION_SPREAD\n Number\tNa\tCl\n press 5\n 1\t1.0\t1.0\nEND\n"
+    fpair = dict(kind="speciation", fam="spread_option_spelling", k=1.0, a=fa, b=fb, last_only=False, last_k=None,
+                 obs=[(t, h) for t, h, _ in obs0] + [("i", "pressure")])
     fst, fdet = run_pairs(ctx, exe, dbpath, [fpair])[0]
     evals += 1
     if fst != "ok":
-        ctx.finding("spread-first-heading-pressure",
-                    "SOLUTION_SPREAD with `pressure` (or `press`) as the first column heading: read_solution_spread takes the heading row for "
-                    "a block-level pressure option (no count/number test as for temp, water, pH), the first data row becomes the heading row "
-                    "and no solution is defined — no error; the same columns in another order work: " + str(fdet),
+        ctx.finding("spread-press-option-ignored",
+                    "SOLUTION_SPREAD: the block-level option `press 5` (no dash) after the heading row is ignored (pressure stays 1 atm) while "
+                    "`pressure 5`, `-press 5` and `press 5` before the heading row set 5 atm: the option switch of read_solution_spread has "
+                    "`case 14` (pressure) but no `case 15` (press): " + str(fdet),
                     {"kind": "pair", "pair": fpair, "detail": str(fdet)})
-    ctx.cov["finding_probe_spread_first_heading_pressure"] = fst
+    ctx.cov["finding_probe_spread_press_option"] = fst
     base_v = len(ctx.violations)       # an unlisted finding is reported but does not stop or shorten the search
 
     # corpus: minimised past misses, always replayed first
